@@ -55,6 +55,16 @@ def build(spec):
     k = spec.get("shift", 0)
     if k:
         o = shift_spec(o, k)
+    if spec.get("wide") is not None:
+        # one member gets its last child moved two bins (2^18) downstream: the member then spans bins none of its children occupy
+        o = json.loads(json.dumps(o))
+        members = [g["transcripts"] for g in o.get("genes", []) if len(g["transcripts"]) >= 2] + [c["features"] for c in o.get("feature_collections", []) if len(c["features"]) >= 2]
+        if members:
+            kids_ = members[spec["wide"] % len(members)]
+            c = kids_[-1]
+            for key in ("exons", "cds", "blocks"):
+                if key in c:
+                    c[key] = [[a + 2 ** 18, b + 2 ** 18] for a, b in c[key]]
     g = spec.get("genome")
     mode = spec["parent"]
     if mode == "chrom":
@@ -178,6 +188,8 @@ def check_position(spec, ctx):
                 ctx.label("child_straddles_query_edge")
         if rs // BIN != (re_ - 1) // BIN:
             ctx.label("bin_boundary_crossed")
+        if spec.get("wide") is not None and not cw and any(k[3] - k[2] > 2 ** 17 and k[2] + 2 ** 16 < rs and re_ < k[3] - 2 ** 16 for k in expected):
+            ctx.label("relaxed_query_between_children_of_a_wide_member")
         if rs > 0 and cw:
             ctx.label("bins_prefilter_active")
         if co and o.get("variant_collections"):
@@ -279,6 +291,8 @@ def coll_base(draw, tier):
         lvl = draw(st.sampled_from([1, 1, 2, 8, 64, 4095]))
         sp["shift"] = lvl * BIN - draw(st.integers(0, hi + 2))
         sp["parent"] = draw(st.sampled_from(["none", "none", "id_only"]))
+        if draw(st.integers(0, 2)) == 0:
+            sp["wide"] = draw(st.integers(0, 5))
     else:
         sp["parent"] = mode
         if mode in ("chrom", "chunk"):
@@ -305,6 +319,7 @@ def strat_position(draw, tier="quick"):
     coord = st.one_of(
         st.none(),
         st.integers(max(0, k - 2), k + hi + 10),
+        *([st.integers(k + hi + 10, k + 2 ** 18 - 10), st.sampled_from([k + 2 ** 17 - 1, k + 2 ** 17, k + 2 ** 17 + 1, k + 2 ** 17 + 50])] if sp.get("wide") is not None else []),
         st.tuples(st.just("child"), st.integers(0, 9), st.sampled_from(["start", "end"]), st.sampled_from([-1, 0, 0, 1])).map(list),
     )
     for _ in range(nq):
@@ -371,7 +386,7 @@ PROP = Prop(
     legs=[
         Leg("position", check_position, strategy=strat_position, n_quick=350, n_thorough=3500, shards_quick=4,
             must_hit=["child_end==query_end", "child_start==query_start", "bin_boundary_crossed", "on_chunk", "coding_only&variants",
-                      "bins_prefilter_active", "member_sequence_checked", "member_sliced_by_bounds", "invalid_query_refused", "empty_result", "explicit_start_inside_sequence"],
+                      "bins_prefilter_active", "member_sequence_checked", "member_sliced_by_bounds", "invalid_query_refused", "empty_result", "explicit_start_inside_sequence", "relaxed_query_between_children_of_a_wide_member"],
             rule="collections (0..3 genes, 0..2 feature collections, optional variant collection) on no parent / id-only parent / whole chromosome / chunk, or shifted to sit around a multiple of 2^17 (sequence-less); 8..14 query ranges each (absolute, None, or pinned to a child's start/end +-1) x completely_within x coding_only x expand"),
         Leg("small_exhaustive", check_position, enumerate=enum_small, exhaustive=True, shards_quick=16, shards_thorough=16,
             rule="one fixed 5-member collection on three parents: ALL (start,end) ranges within the bounds x all 8 flag combinations"),
